@@ -1194,6 +1194,19 @@ class Spec(object):
         self.effect("yield", v, node=e)
         return None
 
+    def ev_YieldFrom(self, e, env, g):
+        """`yield from it`: every item of a known sequence (an inner generator that was run eagerly gives its list of values) is yielded here in order;
+        anything else is recorded as one delegation"""
+        v = self.ev(e.value, env, g)
+        if isinstance(v, (list, tuple)):
+            for item in v:
+                self.yields.append((tuple(self.guards), item, getattr(e, "lineno", 0)))
+                self.effect("yield", item, node=e)
+            return None
+        self.yields.append((tuple(self.guards), Op("each", v), getattr(e, "lineno", 0)))
+        self.effect("yield-from", v, node=e)
+        return None
+
     def ev_NamedExpr(self, e, env, g):
         v = self.ev(e.value, env, g)
         self.assign(e.target, v, env, g)
